@@ -700,6 +700,108 @@ def frag_getitem_size(fn):
     return body[i + 1:j]
 
 
+def _stmts(fn):
+    """body of fn without the docstring"""
+    return [s for s in fn.body if not (isinstance(s, ast.Expr) and isinstance(s.value, ast.Constant)
+                                       and isinstance(s.value.value, str))]
+
+
+def frag_tile_positions_counts(fn):
+    """compute_tile_positions_per_frame: the two assignments `tiles_per_column = ...`, `tiles_per_row = ...`;
+    everything after them (meshgrid order, scaling by [columns, rows], transformer call, `+= 1`, zip) must be
+    textually what the hand model C12_Model.tile_offsets / tile_positions mirrors."""
+    body = _stmts(fn)
+    names = [assigned_names([s]) for s in body]
+    try:
+        i, j = names.index(['tiles_per_column']), names.index(['tiles_per_row'])
+    except ValueError:
+        raise Refuse('compute_tile_positions_per_frame: tiles_per_column / tiles_per_row are not single assignments')
+    if j != i + 1:
+        raise Refuse('compute_tile_positions_per_frame: tiles_per_column, tiles_per_row are not adjacent')
+    want = ["tile_indices = np.stack(np.meshgrid(range(tiles_per_column), range(tiles_per_row), "
+            "indexing='xy')).reshape(2, -1).T",
+            'pixel_indices = tile_indices * [columns, rows]',
+            'transformer = PixelToReferenceTransformer(image_position=total_pixel_matrix_image_position, '
+            'image_orientation=image_orientation, pixel_spacing=pixel_spacing)',
+            'image_positions = transformer(pixel_indices)',
+            'pixel_indices += 1',
+            'return list(zip(pixel_indices.tolist(), image_positions.tolist()))']
+    got = [src(s) for s in body[j + 1:]]
+    if got != want:
+        bad = next((g for g, w in zip(got, want) if g != w), 'number of statements')
+        raise Refuse(f'compute_tile_positions_per_frame: the code after the tile counts changed: `{bad[:90]}`')
+    for s in body[:i]:
+        if set(assigned_names([s])) & {'rows', 'columns', 'total_pixel_matrix_rows', 'total_pixel_matrix_columns'}:
+            raise Refuse('compute_tile_positions_per_frame: a size parameter is reassigned before the tile counts')
+    return body[i:j + 1]
+
+
+class _ShapeToName(ast.NodeTransformer):
+    """pixel_array.shape[0] -> n_rows, pixel_array.shape[1] -> n_cols (any other use of pixel_array is left
+    alone and is then refused by the translator)"""
+    def visit_Subscript(self, node):
+        if src(node) == 'pixel_array.shape[0]':
+            return ast.copy_location(ast.Name(id='n_rows', ctx=ast.Load()), node)
+        if src(node) == 'pixel_array.shape[1]':
+            return ast.copy_location(ast.Name(id='n_cols', ctx=ast.Load()), node)
+        return self.generic_visit(node)
+
+
+def frag_tile_array_bounds(fn):
+    """get_tile_array: everything before `tile_array = pixel_array[row_offset:row_end, column_offset:column_end]`
+    (offset checks, 1-based -> 0-based, clipping, pad sizes) with pixel_array.shape[0|1] read as the ints
+    n_rows, n_cols; the slicing / padding statements after it must be textually unchanged."""
+    import copy
+    body = _stmts(fn)
+    texts = [src(s) for s in body]
+    cut = 'tile_array = pixel_array[row_offset:row_end, column_offset:column_end]'
+    if texts.count(cut) != 1:
+        raise Refuse('get_tile_array: no unique `' + cut + '`')
+    i = texts.index(cut)
+    want = [cut,
+            'if pad and (pad_rows > 0 or pad_columns > 0):\n'
+            '    extra_dims = pixel_array.ndim - 2\n'
+            '    padding = [(0, pad_rows), (0, pad_columns)] + [(0, 0)] * extra_dims\n'
+            '    tile_array = np.pad(tile_array, padding)',
+            'return tile_array']
+    if texts[i:] != want:
+        bad = next((g for g, w in zip(texts[i:], want) if g != w), 'number of statements')
+        raise Refuse(f'get_tile_array: the slicing / padding code changed: `{bad[:90]}`')
+    if [a.arg for a in fn.args.args] != ['pixel_array', 'row_offset', 'column_offset', 'tile_rows', 'tile_columns', 'pad']:
+        raise Refuse('get_tile_array: parameter list changed')
+    out = [_ShapeToName().visit(copy.deepcopy(s)) for s in body[:i]]
+    for s in out:
+        ast.fix_missing_locations(s)
+    return out
+
+
+def frag_plane_position_offsets(fn):
+    """compute_plane_position_tiled_full: the index check and the two frame offsets; the uses of the offsets
+    (index=(column, row) of the transform, pixel_matrix_position = offsets + 1) must be textually unchanged."""
+    body = _stmts(fn)
+    texts = [src(s) for s in body]
+    try:
+        i = texts.index("if row_index < 1 or column_index < 1:\n    raise ValueError('Row and column indices must be positive integers.')")
+    except ValueError:
+        raise Refuse('compute_plane_position_tiled_full: index check not found')
+    if [assigned_names([s]) for s in body[i + 1:i + 3]] != [['row_offset_frame'], ['column_offset_frame']]:
+        raise Refuse('compute_plane_position_tiled_full: offsets are not assigned right after the index check')
+    rest = body[i + 3:]
+    for s in rest:
+        if set(assigned_names([s])) & {'row_offset_frame', 'column_offset_frame', 'rows', 'columns'}:
+            raise Refuse('compute_plane_position_tiled_full: offsets reassigned')
+    uses = [src(s) for s in rest if 'offset_frame' in src(s)]
+    want = ['x, y, z = map_pixel_into_coordinate_system(index=(column_offset_frame, row_offset_frame), '
+            'image_position=(x_offset, y_offset, z_offset), image_orientation=image_orientation, '
+            'pixel_spacing=pixel_spacing)',
+            'return PlanePositionSequence(coordinate_system=CoordinateSystemNames.SLIDE, image_position=(x, y, z), '
+            'pixel_matrix_position=(column_offset_frame + 1, row_offset_frame + 1))']
+    if uses != want:
+        bad = next((g for g, w in zip(uses, want) if g != w), 'number of statements')
+        raise Refuse(f'compute_plane_position_tiled_full: the uses of the offsets changed: `{bad[:90]}`')
+    return body[i:i + 3]
+
+
 IMG, SPATIAL, SEGSOP, VOLUME = 'image.py', 'spatial.py', 'seg/sop.py', 'volume.py'
 FUNCTIONS = {
     # generated name -> how to find / cut the source
@@ -710,6 +812,20 @@ FUNCTIONS = {
                                    params=[('frame_index', Z)], outputs=['start', 'end']),
     'bytes_per_frame_uncompressed': dict(file='io.py', path=['ImageFileReader', '_bytes_per_frame_uncompressed']),
     'tile_pixel_matrix': dict(file=SPATIAL, path=['tile_pixel_matrix']),
+    'tile_positions_counts': dict(file=SPATIAL, path=['compute_tile_positions_per_frame'],
+                                  fragment=frag_tile_positions_counts,
+                                  params=[('rows', Z), ('columns', Z), ('total_pixel_matrix_rows', Z),
+                                          ('total_pixel_matrix_columns', Z)],
+                                  outputs=['tiles_per_column', 'tiles_per_row']),
+    'tile_array_bounds': dict(file=SPATIAL, path=['get_tile_array'], fragment=frag_tile_array_bounds,
+                              params=[('row_offset', Z), ('column_offset', Z), ('tile_rows', Z), ('tile_columns', Z),
+                                      ('n_rows', Z), ('n_cols', Z)],
+                              outputs=['row_offset', 'row_end', 'column_offset', 'column_end', 'pad_rows',
+                                       'pad_columns']),
+    'plane_position_offsets': dict(file='utils.py', path=['compute_plane_position_tiled_full'],
+                                   fragment=frag_plane_position_offsets,
+                                   params=[('row_index', Z), ('column_index', Z), ('rows', Z), ('columns', Z)],
+                                   outputs=['row_offset_frame', 'column_offset_frame']),
     'get_unsigned_dtype': dict(file=SEGSOP, path=['_get_unsigned_dtype']),
     'getitem_check_int': dict(file=VOLUME, path=['_VolumeBase', '_prepare_getitem_index', '_check_int'],
                               params=[('val', Z)]),
@@ -748,6 +864,20 @@ TARGETS = {
                                   'forall R C th tw, 0 < th -> 0 < tw -> t_tile_pixel_matrix R C th tw = '
                                   'Ok (C12_Model.tile_pixel_matrix R C th tw);  th = 0 \\/ tw = 0 -> ... = Err "ZeroDivisionError"  '
                                   '(int(np.ceil(a / b)) read as exact ceiling: trusted float step)'),
+    'tile_positions_counts/C12': dict(fn='tile_positions_counts', statement=
+                                      'forall th tw R C, th <> 0 -> tw <> 0 -> t_tile_positions_counts th tw R C = '
+                                      'Ok (C12_Model.tiles_per_column C tw, C12_Model.tiles_per_row R th);  '
+                                      'th = 0 \\/ tw = 0 -> ... = Err "ZeroDivisionError";  consequently '
+                                      'tile_positions_chk = the guards + bind (t_tile_positions_counts ...) (the grid of those counts)'),
+    'tile_array_bounds/C12': dict(fn='tile_array_bounds', statement=
+                                  'forall M R C ro co th tw pad, C12_Model.get_tile_array M R C ro co th tw pad = '
+                                  "bind (t_tile_array_bounds ro co th tw R C) (fun '(r0, r1, c0, c1, pr, pc) => "
+                                  'Ok (slice rows r0..r1, columns c0..c1 of M, zero-padded by pr rows / pc columns if pad))   '
+                                  '(pixel_array.shape[0|1] read as R, C)'),
+    'plane_position_offsets/C12': dict(fn='plane_position_offsets', statement=
+                                       'forall ri ci x y th tw rc cc spr spc sl, C12_Model.plane_position_tiled_full ri ci x y th tw rc cc spr spc sl = '
+                                       "bind (t_plane_position_offsets ri ci th tw) (fun '(ro, co) => "
+                                       'Ok ((co + 1, ro + 1), pix2ref (V3 x y z(sl)) rc cc spr spc co ro))'),
     'unsigned_dtype/C02': dict(fn='get_unsigned_dtype', statement=
                                'forall m, bind (t_get_unsigned_dtype m) (fun w => Ok (DU w)) = Ok (C02_Model.unsigned_dtype m)   '
                                '(np.dtype(np.uintW) rendered as W)'),
